@@ -35,6 +35,15 @@ class RefPeer:
         self.singles = []       # non-transport frames addressed to us / global: (Id, data)
 
     # ------------------------------------------------------------------ helpers
+    def _reply(self, fn, tag='peer'):
+        """Answer after the policy's reply latency; with 'sync_reply' a latency of exactly 0 means: inside the handler of the frame that
+        caused it (a node whose answer is on the bus before the other side's send call has returned, given a zero-latency bus)."""
+        d = self._ms('reply_ms')
+        if d == 0 and self.p.get('sync_reply'):
+            fn()
+        else:
+            self.sim.after(d, fn, tag)
+
     def _ms(self, key):
         lo, hi = self.p[key]
         return self.rng.randint(int(lo * 1000), int(hi * 1000)) * 1000   # ns, us resolution
@@ -109,7 +118,7 @@ class RefPeer:
             self.rx[(i.sa, i.ps, 0)] = s
             if self._maybe_abort_at():
                 return self._abort21(i.sa, pgn, s)
-            self.sim.after(self._ms('reply_ms'), lambda: self._cts21(s), 'peer')
+            self._reply(lambda: self._cts21(s), 'peer')
         elif ctrl == rc.BAM and i.ps == 255:
             size, npk = d[1] | (d[2] << 8), d[3]
             if npk != rc.npackets21(size):
@@ -138,7 +147,7 @@ class RefPeer:
                 self.err('CTS grants %d from %d beyond %d packets' % (n, nxt, s['npk']))
             s['grant_end'] = min(s['npk'], nxt + n - 1)
             s['next'] = nxt
-            self.sim.after(self._ms('reply_ms'), lambda: self._send_dt21(s), 'peer')
+            self._reply(lambda: self._send_dt21(s), 'peer')
         elif ctrl == rc.EOMA and i.ps == self.addr:
             s = self.tx.pop((i.sa, 0), None)
             if s is None:
@@ -204,10 +213,10 @@ class RefPeer:
             self.received.append({'pgn': s['pgn'], 'sa': i.sa, 'da': i.ps, 'data': bytes(s['data'][:s['size']]), 't': self.sim.now,
                                   'prio': s['prio'], 'via': 'bam' if i.ps == 255 else 'cmdt', 'gaps': s.get('gaps')})
             if i.ps != 255 and self.p['ack']:
-                self.sim.after(self._ms('reply_ms'), lambda: self.send(7, 0, rc.PF_TP_CM, i.sa, rc.tp_eoma(s['size'], s['npk'], s['pgn'])), 'peer')
+                self._reply(lambda: self.send(7, 0, rc.PF_TP_CM, i.sa, rc.tp_eoma(s['size'], s['npk'], s['pgn'])), 'peer')
         elif i.ps != 255 and seq == s['win_end']:
             s['holds'] = self.rng.randint(*self.p['holds'])
-            self.sim.after(self._ms('reply_ms'), lambda: self._cts21(s), 'peer')
+            self._reply(lambda: self._cts21(s), 'peer')
 
     def _send_dt21(self, s):
         if self.tx.get((s['da'], 0)) is not s:
@@ -242,7 +251,7 @@ class RefPeer:
             self.rx[(i.sa, i.ps, cm.session)] = s
             if self._maybe_abort_at():
                 return self._abort22(s)
-            self.sim.after(self._ms('reply_ms'), lambda: self._cts22(s), 'peer')
+            self._reply(lambda: self._cts22(s), 'peer')
         elif cm.ctrl == rc.FD_BAM and i.ps == 255:
             if cm.b != rc.nsegments22(cm.a):
                 self.err('BAM segment count %d for %d bytes' % (cm.b, cm.a))
@@ -267,7 +276,7 @@ class RefPeer:
                 self.err('CTS grants %d from %d beyond %d segments' % (n, nxt, s['npk']))
             s['grant_end'] = min(s['npk'], nxt + n - 1)
             s['next'] = nxt
-            self.sim.after(self._ms('reply_ms'), lambda: self._send_dt22(s), 'peer')
+            self._reply(lambda: self._send_dt22(s), 'peer')
         elif cm.ctrl == rc.FD_EOMS:
             s = self.rx.pop((i.sa, i.ps, cm.session), None)
             if s is None:
@@ -280,7 +289,7 @@ class RefPeer:
             self.received.append({'pgn': s['pgn'], 'sa': i.sa, 'da': i.ps, 'data': bytes(s['data'][:s['size']]), 't': self.sim.now,
                                   'prio': s['prio'], 'via': 'bam' if i.ps == 255 else 'cmdt', 'gaps': s.get('gaps'), 'session': cm.session})
             if i.ps != 255 and self.p['ack']:
-                self.sim.after(self._ms('reply_ms'), lambda: self.send(7, 0, rc.PF_FD_TP_CM, i.sa,
+                self._reply(lambda: self.send(7, 0, rc.PF_FD_TP_CM, i.sa,
                                                                          rc.fd_eoma(cm.session, s['size'], s['npk'], s['pgn'])), 'peer')
         elif cm.ctrl == rc.FD_EOMA and i.ps == self.addr:
             s = self.tx.pop((i.sa, cm.session), None)
@@ -354,7 +363,7 @@ class RefPeer:
             return          # wait for EOMS
         if i.ps != 255 and seg == s['win_end']:
             s['holds'] = self.rng.randint(*self.p['holds'])
-            self.sim.after(self._ms('reply_ms'), lambda: self._cts22(s), 'peer')
+            self._reply(lambda: self._cts22(s), 'peer')
 
     def _send_dt22(self, s):
         if self.tx.get((s['da'], s['session'])) is not s:
